@@ -105,17 +105,27 @@ fn run_schedule(seed: u64, index: u64, report: &mut Report) {
     let k = 2 + rng.usize_below(11);
     let units = make_units(&mut rng, k);
     let kind = rng.below(6);
+    drive::stepping(0);
+    drive::reset_budget();
     report.evaluations += 1;
     report.count(&format!("schedules_{}", schedule_name(kind)), 1);
     if kind == 5 {
         run_reused_storage(seed, index, &mut rng, report);
         return;
     }
-    // solo sequences first
+    // solo sequences first (label 0 of the non-termination guard; the live evaluators below are labelled 1..=k)
     let solos: Vec<Result<Vec<TraceKey>, String>> = units
         .iter()
         .map(|u| catch(|| drive::evaluator(&u.cfg, &u.ranges, Some(u.scope)).into_iter().map(|sd| trace_key(&sd)).collect()))
         .collect();
+    if let Some(Err(p)) = solos.iter().find(|s| matches!(s, Err(p) if p.contains(drive::BOUND_PANIC))) {
+        // the harness's own non-termination guard fired on an evaluator iterated ALONE: the enumeration itself does
+        // not end (C02/C08's subject), so there is no solo sequence to compare an interleaved one with
+        if report.inconclusive.len() < 3 {
+            report.inconclusive(format!("schedule {}: a solo run does not end: {}", index, p));
+        }
+        return;
+    }
     let mut schedule_hash = 0u64;
     let mut abandoned = 0u64;
     let result = catch(|| {
@@ -132,7 +142,14 @@ fn run_schedule(seed: u64, index: u64, report: &mut Report) {
                 abandoned += 1;
             }
         }
-        let mut its: Vec<_> = units.iter().map(|u| drive::evaluator(&u.cfg, &u.ranges, Some(u.scope)).into_iter()).collect();
+        let mut its: Vec<_> = units
+            .iter()
+            .enumerate()
+            .map(|(e, u)| {
+                drive::stepping(e + 1);
+                drive::evaluator(&u.cfg, &u.ranges, Some(u.scope)).into_iter()
+            })
+            .collect();
         let mut seqs: Vec<Vec<TraceKey>> = vec![Vec::new(); k];
         let mut live: Vec<usize> = (0..k).collect();
         let starved = rng.usize_below(k);
@@ -161,6 +178,7 @@ fn run_schedule(seed: u64, index: u64, report: &mut Report) {
             if (kind == 2 || kind == 4) && restarts < 2 && rng.chance(1, 150) {
                 restarts += 1;
                 // give up on this evaluator midway and start it again from scratch
+                drive::stepping(e + 1);
                 its[e] = drive::evaluator(&units[e].cfg, &units[e].ranges, Some(units[e].scope)).into_iter();
                 seqs[e].clear();
                 abandoned += 1;
@@ -168,6 +186,7 @@ fn run_schedule(seed: u64, index: u64, report: &mut Report) {
             for _ in 0..burst {
                 steps += 1;
                 schedule_hash = mix2(schedule_hash, e as u64);
+                drive::stepping(e + 1);
                 match its[e].next() {
                     Some(sd) => seqs[e].push(trace_key(&sd)),
                     None => {
@@ -178,6 +197,7 @@ fn run_schedule(seed: u64, index: u64, report: &mut Report) {
                 if kind == 4 && rng.chance(1, 8) {
                     // unrelated library calls in between: a new evaluator stepped once, a range formatted
                     let other = &units[rng.usize_below(k)];
+                    drive::stepping(0);
                     let mut fresh = drive::evaluator(&other.cfg, &other.ranges, None).into_iter();
                     let _ = fresh.next();
                     let _ = other.ranges[0].to_string();
@@ -194,6 +214,7 @@ fn run_schedule(seed: u64, index: u64, report: &mut Report) {
         }
         (seqs, steps)
     });
+    drive::stepping(0);
     let case = || {
         Json::obj()
             .set("kind", Json::str("schedule"))
@@ -272,6 +293,8 @@ fn run_reused_storage(seed: u64, index: u64, rng: &mut Rng, report: &mut Report)
             }
             let a = rng.usize_below(POSITIONS - 30);
             let scope: Scope = (from_linear(a), from_linear(a + 1 + rng.usize_below(30)));
+            drive::stepping(i + 1);
+            drive::allow(&players);
             let mut e = espada::evaluator::FlopExhaustiveEvaluator::new(&board, &players);
             e.scope(scope.0 .0, scope.0 .1, scope.1 .0, scope.1 .1);
             snapshots.push((players.clone(), scope));
@@ -296,6 +319,7 @@ fn run_reused_storage(seed: u64, index: u64, rng: &mut Rng, report: &mut Report)
             let pick = rng.usize_below(live.len());
             let e = live[pick];
             steps += 1;
+            drive::stepping(e + 1);
             match its[e].as_mut().and_then(|it| it.next()) {
                 Some(sd) => seqs[e].push(trace_key(&sd)),
                 None => {
@@ -304,9 +328,11 @@ fn run_reused_storage(seed: u64, index: u64, rng: &mut Rng, report: &mut Report)
             }
         }
         // solo runs over deep copies (same iteration order, different storage)
+        drive::stepping(0);
         let solos: Vec<Vec<TraceKey>> = snapshots
             .iter()
             .map(|(ranges, scope)| {
+                drive::allow(ranges);
                 let mut e = espada::evaluator::FlopExhaustiveEvaluator::new(&board, ranges);
                 e.scope(scope.0 .0, scope.0 .1, scope.1 .0, scope.1 .1);
                 e.into_iter().map(|sd| trace_key(&sd)).collect()
@@ -314,7 +340,15 @@ fn run_reused_storage(seed: u64, index: u64, rng: &mut Rng, report: &mut Report)
             .collect();
         (seqs, solos, steps)
     });
+    drive::stepping(0);
     match result {
+        Err(p) if p.contains(drive::BOUND_PANIC) => {
+            // the harness's own non-termination guard: in this schedule the solo runs come last, so a run that does
+            // not end cannot be told apart from an enumerator that never ends on its own (C02/C08's subject)
+            if report.inconclusive.len() < 3 {
+                report.inconclusive(format!("schedule {}: evaluators built from reused storage do not end: {}", index, p));
+            }
+        }
         Err(p) => report.violate(format!("schedule:{}:{}:panic", seed, index), format!("evaluators built from reused storage panicked: {}", p), case()),
         Ok((seqs, solos, steps)) => {
             report.count("next_calls_interleaved", steps);
@@ -416,6 +450,10 @@ fn engine_skipped(report: &mut Report, engine: &str, reason: String) {
 }
 
 fn merge_threads_doc(report: &mut Report, doc: &Json, engine: &str) {
+    if let Some(p) = doc.get("solo_run_does_not_end").and_then(|v| v.as_str()) {
+        report.inconclusive(format!("[{}] an evaluator iterated alone does not end, so there is no solo sequence to compare the threaded runs with: {}", engine, p));
+        return;
+    }
     let get = |k: &str| doc.get(k).and_then(|v| v.as_i128()).unwrap_or(0) as u64;
     report.count(&format!("{}_threads", engine), get("threads"));
     report.count(&format!("{}_sequences_compared", engine), get("sequences_compared"));
@@ -523,7 +561,9 @@ fn tsan(ctx: &Ctx, report: &mut Report) {
     }
     let exe = target.join("x86_64-unknown-linux-gnu").join("release").join("verif_threads");
     let envs = vec![("TSAN_OPTIONS".to_string(), "halt_on_error=0 exitcode=66 second_deadlock_stack=1".to_string())];
-    match run_cmd(exe.to_str().unwrap_or(""), &["run".into(), (ctx.seed % 1_000_000).to_string(), "quick".into()], &envs, None, Duration::from_secs(3600)) {
+    // ThreadSanitizer reserves terabytes of address space: lift run_check.sh's soft address-space cap for this process
+    let lifted: Vec<String> = vec!["-c".into(), "ulimit -S -v unlimited 2>/dev/null; exec \"$0\" \"$@\"".into(), exe.to_string_lossy().to_string(), "run".into(), (ctx.seed % 1_000_000).to_string(), "quick".into()];
+    match run_cmd("sh", &lifted, &envs, None, Duration::from_secs(3600)) {
         Ok(r) => {
             let reports = r.stderr.matches("WARNING: ThreadSanitizer").count();
             report.set("tsan_reports", Json::Int(reports as i128));
